@@ -33,6 +33,10 @@ pub struct Case {
     /// first): every session must get the receiver's configuration
     #[serde(default)]
     pub second_session: bool,
+    /// (check off only) the Expires attribute is beyond the 32-bit NTP seconds (a duration of decades): with
+    /// the check disabled expiry is ignored, whatever the attribute says
+    #[serde(default)]
+    pub far_expires: bool,
 }
 
 const S0: u64 = EPOCH_2027 + 86_400; // sender time when the (last packet of the) FDT is sent
@@ -113,7 +117,7 @@ pub fn run_case(c: &Case) -> Outcome {
     let e_ntp = unix_to_ntp_secs((S0 as i64 - c.sct_minus_expires) as u64);
     let content_a = obj_bytes(13, 1);
     let content_b = obj_bytes(11, 2);
-    let mut x = FdtX::new(&e_ntp.to_string());
+    let mut x = FdtX::new(&if c.far_expires { (e_ntp as u64 + (1u64 << 32)).to_string() } else { e_ntp.to_string() });
     let with_fti = c.timing != 2;
     let mut mkfile = |toi: u128, content: &[u8]| {
         let mut f = FileX::new(&toi.to_string(), &format!("file:///c19-{}", toi)).attr("Content-Length", &content.len().to_string()).attr("Transfer-Length", &content.len().to_string());
@@ -329,9 +333,12 @@ pub fn run(thorough: bool) -> i32 {
                                 continue;
                             }
                             for (multi, spread) in [(false, 0i64), (true, 1), (true, 40)] {
-                                cases.push(Case { sct_minus_expires: d, sct_present, offset, check, timing, obj_est_minus_expires: g, multi, spread, second_session: false });
+                                cases.push(Case { sct_minus_expires: d, sct_present, offset, check, timing, obj_est_minus_expires: g, multi, spread, second_session: false, far_expires: false });
+                                if !check && !multi && timing <= 2 {
+                                    cases.push(Case { sct_minus_expires: d, sct_present, offset, check, timing, obj_est_minus_expires: g, multi, spread, second_session: false, far_expires: true });
+                                }
                                 if !multi {
-                                    cases.push(Case { sct_minus_expires: d, sct_present, offset, check, timing, obj_est_minus_expires: g, multi, spread, second_session: true });
+                                    cases.push(Case { sct_minus_expires: d, sct_present, offset, check, timing, obj_est_minus_expires: g, multi, spread, second_session: true, far_expires: false });
                                 }
                             }
                         }
